@@ -41,6 +41,23 @@ def run(ctx):
         ctx.violations.append(dict(what=what, key=what, input=inp, observed=obs))
 
     goals = []
+    # ---------------- whole-degree temperature ladders around 0 F at one pressure (equal floats hash equally; -1.0 and -2.0 hash to the same
+    # value in CPython): density is p M / (Z R T) with Z the root of the coded equation of state for THAT temperature (independent solve)
+    for p_l in ((1500.0,) if ctx.quick else (400.0, 1500.0, 5000.0)):
+        tpc_l, ppc_l, sg_l = -102.0, 650.0, 0.65
+        for T_l in list(range(-6, 7)) + list(range(6, -7, -1)):
+            tr_l = (T_l + 459.67) / (tpc_l + 459.67)
+            if not 1.05 <= tr_l <= 3.0:
+                continue
+            zref = dak.z_solve(tr_l, p_l / ppc_l, False)
+            rho_l = float(gas.density_DAK(T_l, p_l, tpc_l, ppc_l, sg_l))
+            mu_l = float(gas.viscosity_Sutton(T_l, p_l, tpc_l, ppc_l, sg_l))
+            ev += 1
+            want_l = p_l * 28.964 * sg_l / (zref * 10.73159 * (T_l + 459.67))
+            if not dom.relclose(rho_l, want_l, 1e-8) or not mu_l > 0:
+                bad("gas density is not p M / (Z R T) with Z the root of the equation of state for its own temperature (whole-degree temperature ladder around 0 F)",
+                    dict(T=T_l, p=p_l, Tpc=tpc_l, Ppc=ppc_l, sg=sg_l, ladder="-6 .. 6 F and back, same pressure"), dict(density=rho_l, expected=want_l, rel_diff=abs(rho_l / want_l - 1)))
+                break
     for k in range(n):
         # ---------------- gas
         g = dom.gas_params(rng)
